@@ -342,8 +342,10 @@ def check(ctx):
     o.count()
     r = [x for x in ast.walk(fn) if isinstance(x, ast.Return)]       # every way out, not only the last statement
     oks = False
-    if len(r) == 1 and isinstance(r[0].value, ast.Call) and ast.unparse(r[0].value.func) == 'sum' and isinstance(r[0].value.args[0], (ast.GeneratorExp, ast.ListComp)):
-        lc = r[0].value.args[0]
+    from ..norm import single_defs
+    rv = subst(r[0].value, single_defs(fn)) if len(r) == 1 and r[0].value is not None else None      # a local naming the filtered registry is that registry
+    if rv is not None and isinstance(rv, ast.Call) and ast.unparse(rv.func) == 'sum' and len(rv.args) == 1 and isinstance(rv.args[0], (ast.GeneratorExp, ast.ListComp)):
+        lc = rv.args[0]
         gen = lc.generators[0]
         it_ = gen.iter
         # the registry itself, or the registry filtered by find_assets(subtype=Asset) (what that filter keeps is decided by C20.6)
